@@ -54,7 +54,7 @@ def nested_tree(draw, leaves, polytomies=0, max_arity=4):
     cap = max_arity
     while len(forest) > 1:
         k = 2
-        if poly_left and len(forest) >= 3 and draw(st.booleans()):
+        if poly_left and len(forest) >= 3 and chance(draw, 3, 4):
             k = draw(st.integers(3, min(cap, len(forest))))
             poly_left -= 1
             cap = 3
